@@ -228,6 +228,14 @@ pub fn run(cfg: &Cfg) -> Report {
             let case = gen_case(&mut rng, &gc);
             run_case(&case, &mut rng, &mut rep, i % 3 == 0);
         }
+        if sh % 16 == 1 {
+            // trace-length boundary sweep: the dominating component (cycles, chiplet rows with a
+            // hasher / memory / kernel-ROM row last, range rows) lands on 2^k-2, 2^k-1, 2^k
+            for c in crate::props::c01::boundary_cases(&mut rng) {
+                run_case(&c, &mut rng, &mut rep, true);
+                rep.count("boundary_cases", "checked");
+            }
+        }
         rep
     });
     let mut rep = merge_all(reports);
